@@ -1236,14 +1236,38 @@ fn main() {
             }
             let k = (j % 3) as usize;
             match j % 5 {
-                0 => {
-                    if let Some(r) = vh_common::draw(&mut runner, &strat_idx[k]) {
-                        roundtrip(&mut c, &r, "arb-indexed");
+                0 | 1 => {
+                    // the crate's strategies construct through from_indexed / new and unwrap: a panic
+                    // there means a constructor refused a request the strategy's author considers valid
+                    let name = if j % 5 == 0 { "arb-indexed" } else { "arb-sequential" };
+                    let drawn = if j % 5 == 0 {
+                        guard(|| vh_common::draw(&mut runner, &strat_idx[k]))
+                    } else {
+                        guard(|| vh_common::draw(&mut runner, &strat_seq[k]))
+                    };
+                    match drawn {
+                        Ok(Some(r)) => roundtrip(&mut c, &r, name),
+                        Ok(None) => c.r.inconclusive("strategy-rejected-case"),
+                        Err(p) => {
+                            c.r.violation(&format!("C12:constructors:{name}-strategy-panicked:{}", panic_class(&p)), format!("drawing from the crate's {name} strategy panicked: {p}"), json!({"strategy": name}));
+                            // the runner may be left in a bad state
+                            runner = vh_common::proptest_runner(args.shard_seed() ^ j, 1203);
+                        }
                     }
                 }
-                1 => {
-                    if let Some(r) = vh_common::draw(&mut runner, &strat_seq[k]) {
-                        roundtrip(&mut c, &r, "arb-sequential");
+                2 => {
+                    // the same payments, renumbered 0..n by TransactionRequest::new
+                    if let Some(r) = boundary_request(&mut c, &mut rng, &pool) {
+                        let v: Vec<Payment> = r.payments().values().cloned().collect();
+                        let n = v.len();
+                        match guard(|| TransactionRequest::new(v)) {
+                            Ok(Ok(r2)) if r2.payments().keys().copied().eq(0..n) => roundtrip(&mut c, &r2, "boundary-sequential"),
+                            other => c.r.violation(
+                                "C12:TransactionRequest::new:refused-valid",
+                                format!("{n} valid payments: {:?}", other.map(|r| r.map(|q| q.payments().keys().copied().collect::<Vec<_>>()).map_err(|e| err_kind(&e)))),
+                                json!({"req": dump(&r)}),
+                            ),
+                        }
                     }
                 }
                 _ => {
